@@ -3,6 +3,7 @@
 mod bridge;
 mod c03;
 mod c04;
+mod c12;
 mod engine;
 mod refdiff;
 mod refmap;
@@ -61,6 +62,7 @@ fn dispatch(a: &Args, digest_only: bool) -> i32 {
     match a.id.as_str() {
         "C03" => drive(&c03::C03, a, digest_only),
         "C04" => drive(&c04::C04, a, digest_only),
+        "C12" => drive(&c12::C12, a, digest_only),
         other => {
             eprintln!("harness error: no engine for {other}");
             2
